@@ -156,13 +156,15 @@ CLAIMED = {
               "response; every DNS / STUN / RPC reply the responder emits is itself reply-typed. The reflection-chain "
               "clause (at most two replies) is NOT proved: it is monitored on the implementation (bounce of every reply "
               "up to 4 hops, for generated reply-typed messages and for the responder's own replies), together with the "
-              "extracted monitor ok_C12 (a reply-typed message of protocol X is not answered by an X reply)."),
+              "extracted monitor ok_C12 (a reply-typed message of protocol X is not answered by an X reply). "
+              "Frame level (Properties/C12frame.v): for every frame of at most 4096 octets, whatever reply() emits satisfies the monitor ok_C12x (layers 2-4 replies silent; for every datagram and every TCP data segment, a DNS- / STUN- / RPC- / SMB-reply-typed payload is never answered with a reply of that protocol -- own-responder silence for RPC message type 1 incl. across segment cuts and for the SMB reply flag, plus shape lemmas for every other responder's output); part B: if a reply-typed message is answered at all, the answering responder is another protocol's (C12id_*, for every frame); part C partially: two consecutive replies of a bounce chain never come from the same context-dependent responder, and a chain of exactly two replies is exhibited."),
         design="DESIGN.md section 5, C12",
         note=("Partial: chain clause monitored, not proved; SMB reply flag is C17's negative clause, RPC reply message type "
               "rests on identification (C10) and on the message-type test added by fix c541e3c. Two defects found by this "
               "check were repaired (per-flow parser never reset; RPC REPLY messages answered on an RPC flow). "
               "Observations outside the property: SSH banners and Gh0st frames are valid requests as well as replies, and "
-              "a FIN|ACK is answered with a FIN|ACK, so two responders can bounce those for ever."),
+              "a FIN|ACK is answered with a FIN|ACK, so two responders can bounce those for ever. "
+              "The first monitor ok_C12 (Spec/C12.v) demanded more than the text (content classifiers too coarse for byte strings that are both an RPC reply and a STUN request, both RPC layouts applied on both transports, clauses applied to continuation segments): C12_spec_monitor_refuted has the three witnesses; the check uses the corrected ok_C12x (Spec/C12x.v). Still partial: the chain bound (at most two replies) is proved only in the no-repeat form, monitored on the implementation otherwise; cross-layout / cross-dialect claims need a table hypothesis."),
         technique="Coq theorems (finite flag table + per-responder lemmas on the context-free cores) + extracted monitor + reflection-chain monitor on the implementation"),
     "C13": dict(
         text=("Coq theorems over the model of the HTTP responder and of proto::repl, for the tables and the 401 template "
@@ -179,7 +181,8 @@ CLAIMED = {
               "extracted payload-level monitor. The verb phase is tied to the compiled HTTP_SMACK table by a product walk "
               "against the method trie decided by vm_compute (clause of env_ok). Tied to /repo by differential execution "
               "of grammar-directed requests, all prefixes and single-byte faults over UDP (v4/v6) and TCP, with logging "
-              "off and at warn; the extracted monitors and an independent Python oracle judge the implementation's output."),
+              "off and at warn; the extracted monitors and an independent Python oracle judge the implementation's output. "
+              "Frame level (Properties/C13frame.v, via the generic lifts of Proofs/LiftTcp.v): for every frame, whatever reply() emits satisfies ok_C13_udp, and for the first data segment of a flow ok_C13_tcp (state level and history level under no_collision), needing only env_ok and a date string without LF; a complete request behind one of the nine signatures yields exactly the 401 response as the payload of the emitted frame."),
         design="DESIGN.md section 5, C13 (and C11 for the parser-level segmentation theorems in Properties/C11http.v)",
         note=("Trusted: Coq kernel/vm_compute, extraction + OCaml driver, harness incl. its Python oracle, data translator; "
               "the correspondence is testing. Payload-level theorems (bytes_ok payload, identification given or derived "
@@ -269,7 +272,8 @@ CLAIMED = {
               "overflow and no read_string underflow is reachable from a fresh parser. Tied to /repo by differential "
               "execution (all 256 programs, versions, procedures, credential/verifier lengths incl. unpadded ones, both "
               "transports and IP versions, IPv6 text corner cases) and by evaluating the extracted monitor on the "
-              "implementation's replies."),
+              "implementation's replies. "
+              "Frame level (Properties/C16frame.v): every emitted frame satisfies ok_C16_udp / ok_C16_tcp (first data segment; state and history level) under the explicit hypothesis rpc_ident_ok (in-scope, not-shadowed calls are identified), which C10's product theorem discharges on the current table (recipe C16_ident_from_C10); unconditional for identified frames."),
         design="DESIGN.md section 5, C16",
         note=("Trusted: Coq kernel/vm_compute, extraction + OCaml driver, harness; correspondence is testing. Identification "
               "is a hypothesis of the theorems: in-scope calls that the compiled matcher does not identify (first byte "
@@ -351,7 +355,8 @@ CLAIMED = {
               "and for UDP through reply() to the emitted frame's ports. Tied to /repo by differential execution (all "
               "classes x methods, attribute lists of all shapes, malformed TLVs, length lies, truncations, ports incl. "
               "0 / 65535 wrap, both transports and IP versions) and by the extracted monitors and an independent Python "
-              "STUN reader on the implementation's replies."),
+              "STUN reader on the implementation's replies. "
+              "Frame level for TCP as well (Properties/C15frame.v): the first data segment of a flow satisfies ok_C15_tcp incl. the port clause, under an explicit identification hypothesis (stun_ident_ok) that property C10's theorem discharges; no other handler can emit a STUN response to a STUN message (C15_other_handlers_no_stun_response)."),
         design="DESIGN.md sections 5 (C15) and 10.7",
         note=("Trusted: Coq kernel/vm_compute, extraction + OCaml driver, harness incl. its Python oracle; correspondence is "
               "testing. Identification is a hypothesis of the theorems: published binding requests that the compiled "
@@ -362,7 +367,8 @@ CLAIMED = {
               "(stray bytes / a header without value / a missing final padding at the end of the list are tolerated) and "
               "recorded as an observation; proved is the partial form and the exact characterisation. No frame-level TCP "
               "lift (proto level only). Fixed findings: method decoding (5c1d1a4), port shifted once per CHANGE-REQUEST "
-              "(656596d), RFC 5389 padding (eaff8f8), panics on malformed attributes (79978bd)."),
+              "(656596d), RFC 5389 padding (eaff8f8), panics on malformed attributes (79978bd). "
+              "The UDP frame theorem without per-frame identification needs dns_quiet_at (the DNS fallback does not answer a STUN message with bytes that read as a STUN response to it): shown necessary by a 16 918-byte polyglot (C15_udp_without_dns_hypothesis_refuted), impossible within the 4096-byte capture buffer."),
         technique="Coq theorems (reference codec round trips, handler correctness for all attribute lists, exact answered set, UDP frame lift) + extracted monitors and Python oracle on implementation output + model/implementation correspondence"),
     "C17": dict(
         text=("Coq theorems over the SMB responder model (byte-at-a-time dissectors folded over the payload) and proto::repl: "
